@@ -41,6 +41,9 @@ def make_line(rng, v, seg, kind, toks, ec):
             vals[0] = toks.next() + '^' + toks.next() + '&' + toks.next()
         if rng.random() < 0.25 and n > 1:
             vals[0] = '   ' + (vals[0] if vals[0][:1].isalnum() else toks.next()) + ' '   # blanks around the text are data
+        if rng.random() < 0.3:
+            # the HL7 explicit null: a field whose whole text is two double quotes is content like any other
+            vals[rng.randrange(n)] = rng.choice(['""', '""', '"'])
         return f.join([seg] + vals)
     if kind == 'beyond':
         top = max(r.num for r in rows if r.num)
@@ -89,6 +92,18 @@ def make_line(rng, v, seg, kind, toks, ec):
         if len(parts) > 2 and parts[1] and parts[1][0].isalnum():     # (a leaf of blanks only is not judged)
             parts[1] = rng.choice(['  ', ' ', '\t']) + parts[1] + rng.choice(['', ' '])
             line = f.join(parts)
+    if rng.random() < 0.25 and seg != 'MSH':
+        # the HL7 explicit null ("") in a field the line leaves empty, or in one more field at its end
+        parts = line.split(f)
+        # (not at a withdrawn field number: what happens to a value there is the known finding of its own kind)
+        gaps = set(tables.gap_numbers(v, seg))
+        empty = [i for i in range(1, len(parts)) if parts[i] == '' and i not in gaps]
+        if empty:
+            parts[rng.choice(empty)] = '""'
+        elif len(parts) not in gaps:
+            parts.append('""')
+        line = f.join(parts)
+        toks.nulls = getattr(toks, 'nulls', 0) + 1
     return line
 
 
